@@ -5,7 +5,8 @@
    input (one case):
      case <id>
      cfg <nthr> <psize> <cur0> <nlocks> <nctr> <ntasks> <nq> <poolkind>
-     task <k> <d0> <d1>            (-1 = no dependency)
+     task <k> <d0> <d1>            (-1 = no dependency; the locks passed to set_dependency / set_extra_dependency)
+     dedup <0|1>                   (optional; 1 = set_extra_dependency as repaired (default), 0 = pinned commit)
      prog <t> <tok> <tok> ...      (client program of thread t)
      sched <t> <t> ...             (explicit schedule prefix; may be repeated)
      tail <cap>                    (then round robin over unfinished threads, at most <cap> steps in total)
@@ -39,9 +40,9 @@ type case = {
   mutable k_nthr : int; mutable k_psz : int; mutable k_cur : n; mutable k_nlocks : int; mutable k_nctr : int;
   mutable k_ntasks : int; mutable k_nq : int; mutable k_kind : int;
   mutable k_tasks : (int * int * int) list; mutable k_progs : (int * string list) list;
-  mutable k_sched : int list; mutable k_cap : int }
+  mutable k_sched : int list; mutable k_cap : int; mutable k_dedup : bool }
 
-let fresh () = { k_nthr = 0; k_psz = 1; k_cur = N0; k_nlocks = 0; k_nctr = 0; k_ntasks = 0; k_nq = 0; k_kind = 0; k_tasks = []; k_progs = []; k_sched = []; k_cap = 0 }
+let fresh () = { k_nthr = 0; k_psz = 1; k_cur = N0; k_nlocks = 0; k_nctr = 0; k_ntasks = 0; k_nq = 0; k_kind = 0; k_tasks = []; k_progs = []; k_sched = []; k_cap = 0; k_dedup = true }
 
 let split_colon s = match String.split_on_char ':' s with [ a; b ] -> (a, b) | _ -> failwith ("bad token " ^ s)
 let tail s = String.sub s 1 (String.length s - 1)
@@ -126,7 +127,7 @@ let run_case (id : string) (c : case) =
   let d0 = Array.make (max c.k_ntasks 1) (-1) and d1 = Array.make (max c.k_ntasks 1) (-1) in
   List.iter (fun (k, a, b) -> d0.(k) <- a; d1.(k) <- b) c.k_tasks;
   let look arr k = let k = int_of_nat k in if k < c.k_ntasks then opt_of_int arr.(k) else None in
-  let cfg = { nthr = nat_of_int c.k_nthr; psize = nat_of_int c.k_psz; dep0 = look d0; dep1 = look d1; cur0 = c.k_cur;
+  let cfg = { nthr = nat_of_int c.k_nthr; psize = nat_of_int c.k_psz; dep0 = look d0; xdep1 = look d1; dedup = c.k_dedup; cur0 = c.k_cur;
               ctr0 = (fun _ -> N0); lfc0 = (fun _ -> N0); mx0 = (fun _ -> N0) } in
   let progs = Array.make (max c.k_nthr 1) [] in
   List.iter (fun (t, p) -> if t < c.k_nthr then progs.(t) <- p) c.k_progs;
@@ -178,6 +179,7 @@ let () =
       | [ "task"; k; a; b ] -> !c.k_tasks <- (int_of_string k, int_of_string a, int_of_string b) :: !c.k_tasks
       | "prog" :: t :: toks -> !c.k_progs <- (int_of_string t, toks) :: !c.k_progs
       | "sched" :: ts -> !c.k_sched <- !c.k_sched @ List.map int_of_string ts
+      | [ "dedup"; b ] -> !c.k_dedup <- (b <> "0")
       | [ "tail"; cap ] -> !c.k_cap <- int_of_string cap
       | [ "end" ] -> run_case !id !c
       | _ -> ()
